@@ -130,9 +130,13 @@ macro "np_leaf" : tactic => `(tactic| first | exact np_need _ _ | exact np_ask _
 
 /-! ### names and operations -/
 
+theorem np_gatherFrom (x : Ext) (ops : List (String × String × J)) : NP (gatherFrom x ops) := by
+  unfold gatherFrom
+  np_using (first | np_leaf)
+
 theorem np_gatherOperations (x : Ext) (idx : List Analyzer.Ent) : NP (gatherOperations x idx) := by
   unfold gatherOperations
-  np_using (first | np_leaf)
+  exact np_gatherFrom _ _
 
 theorem np_opRefsByRef (x : Ext) (idx : List Analyzer.Ent) : NP (opRefsByRef x idx) := by
   unfold opRefsByRef
